@@ -57,6 +57,17 @@ func trees(thorough bool) []TreeSpec {
 			{Name: "r2", Parent: "r1", QN: 1, PV: 300},
 		}})
 	}
+	// equal cumulative QN where the fork block skipped a height: the local block at the fork point
+	// (height ancestor+1) and the local block at the coming block's own height carry different
+	// prove values, in every order relative to the coming block's
+	for i, pv := range [][3]int64{{100, 10, 50}, {10, 100, 50}, {50, 50, 50}, {100, 10, 5}} {
+		ts = append(ts, TreeSpec{Name: fmt.Sprintf("equalqn-gap-%d", i), Blocks: []BlockSpec{
+			{Name: "a1", Parent: "G", QN: 1, PV: 7, Txs: []string{"t1"}},
+			{Name: "l2", Parent: "a1", QN: 2, PV: pv[0], Txs: []string{"t2"}},
+			{Name: "l3", Parent: "l2", QN: 2, PV: pv[1]},
+			{Name: "c3", Parent: "a1", Height: 3, QN: 4, PV: pv[2], Sec: 1, Txs: []string{"t3"}},
+		}})
+	}
 	if thorough {
 		ts = append(ts, TreeSpec{Name: "six-blocks", Blocks: []BlockSpec{
 			{Name: "a1", Parent: "G", QN: 1, PV: 5, Txs: []string{"t1"}},
